@@ -200,3 +200,18 @@ def sample(ctx, vecs, n):
 def short_sample(res):
     c, v = res
     return dict(id=c["id"], patch=c["patch"], sites=v.get("sites", 0), verdict=v["fails"], output_head=c["got"][:300])
+
+
+def nomatch_identity(ctx, results):
+    """C06 on the library route: a case in which the P-layer finds no instance of the '-' pattern anywhere
+    (or whose package / import guard fails) must return the input bytes themselves, without an error."""
+    st = dict(cases=0, unmatched=0)
+    for c, v in results:
+        st["cases"] += 1
+        if v.get("psites", 1) != 0 or c["err"].startswith("harness:"):
+            continue
+        st["unmatched"] += 1
+        if c["err"] or c.get("changed") == "1":
+            ctx.violation("%s: no instance of the pattern in the file, but %s" % (c["id"], "error: " + c["err"][:120] if c["err"] else "the bytes changed"),
+                          dict(kind="rewrite", id=c["id"], patch=c["patch"], src=c["src"], got=c["got"], err=c["err"], note="no-match identity"))
+    return st
